@@ -7,6 +7,7 @@
 //!   nreal nucleo <capacity> <items>
 //!   nreal sort   <len> <threads>
 //!   nreal eventloop <items per round> <rounds>
+mod seq;
 use std::sync::atomic::Ordering as O;
 use std::sync::Arc;
 
@@ -247,6 +248,7 @@ fn main() {
         Some("boxcar") => boxcar(num(2, 1), num(3, 40)),
         Some("nucleo") => nucleo(num(2, 1), num(3, 30)),
         Some("sort") => sort(num(2, 4100), num(3, 2) as usize),
+        Some("seqdiff") => std::process::exit(seq::main(a.get(2).expect("seqdiff FILE"))),
         Some("eventloop") => eventloop(num(2, 1), num(3, 40)),
         _ => {
             eprintln!("usage: nreal boxcar|nucleo|sort ...");
